@@ -18,7 +18,7 @@ PROPERTY = "C20"
 ALPH = ["a", "\U0001F600", "\U0001F601"]
 BOUNDS = ("catalogue documents; one edit per pair (fresh equal copy, text change, mark change, attribute change, "
           "delete child, duplicate child) at every node of the template; compared texts of 1..3 characters over "
-          "the alphabet {a, U+1F600, U+1F601} (quick: 1..2, on the first two text nodes of the template); start offsets unbounded ints; step budget "
+          "the alphabet {a, U+1F600, U+1F601} (quick: 1..2; on the first two text nodes of the template); start offsets unbounded ints; step budget "
           "8*(tokens(a)+tokens(b))+64 calls/back-edges of find_diff_start/find_diff_end")
 ASSUMPTIONS = ["fragments that differ by more than one edit are outside the bound (the two functions recurse child by child, so one differing child per level is the general case)"]
 
@@ -181,7 +181,8 @@ def obligations(tier, seed):
                  {"schema": "basic", "doc": 1}, {"schema": "docmarks", "doc": 0}]
         kmax = 2
     else:
-        parts = common.doc_partitions(["list", "basic", "iso", "table", "strict"], tier)
+        parts = [{"schema": sn, "doc": i} for (sn, i) in [("list", 1), ("list", 3), ("list", 5), ("list", 7), ("list", 11), ("basic", 1),
+                                                          ("strict", 1), ("table", 0), ("docmarks", 0), ("iso", 3)]]
         kmax = 3
     T = 150 if tier == "quick" else 900
     for p in parts:
@@ -191,6 +192,6 @@ def obligations(tier, seed):
         step = (ne + nchunk - 1) // nchunk
         for mode in ("shared", "fresh", "swapped"):
             for lo in range(0, ne, step):
-                q = dict(p, mode=mode, kmax=kmax, elo=lo, ehi=lo + step, ntext=(2 if tier == "quick" else 99))
+                q = dict(p, mode=mode, kmax=kmax, elo=lo, ehi=lo + step, ntext=2)
                 obs.append({"name": "diff/%s#%d/%s/%d" % (p["schema"], p["doc"], mode, lo), "fn": "ob_diff", "P": q, "timeout": T})
     return obs
